@@ -22,6 +22,7 @@ func (w *VerifRecWriter) Buf() []byte     { return w.buf }
 func (w *VerifRecWriter) Calls() int      { return w.calls }
 func (w *VerifRecWriter) SetFailAt(k int) { w.failAt = k }
 func (w *VerifRecWriter) SetFailFrom(k int) { w.failFrom = k }
+func (w *VerifRecWriter) SetFailFull(b bool) { w.failFull = b }
 
 var VerifErrInjected = verifErrInjected
 
